@@ -18,6 +18,11 @@ func init() {
 		Assumptions: commonAssumptions,
 		Rules:       []Rule{{"no-global-write", ruleNoSharedState}, {"zero-concurrency", ruleZeroConcurrency}},
 	})
+	register(&PropSpec{ID: "C16",
+		Explanation: "Structural agreement clauses of the timestamp codec, per format: the separator and digit count the writer wrapper passes to formatDuration and the separators / millisecond scale the reader wrapper passes to parseDuration are extracted as constants and must agree (writer separator among the reader's, scale 3, 2 or 3 digits); each codec entry point reaches only its own wrappers; the WebVTT inline-timestamp pattern accepts the writer's shape; STL formatter and parser take the frame rate from the same gsiBlock field. Not decided: truncation, field ranges, padding for every value, monotonicity, self-inverse per value, the 30 fps frame loss — statements about floor/divide on 8.6e7 values that need evaluation or a solver.",
+		Assumptions: commonAssumptions,
+		Rules: []Rule{{"timestamp-format", ruleDurationFormats()}},
+	})
 	register(&PropSpec{ID: "C17",
 		Explanation: "Decides that (R8.1) every io.Reader parameter of the library flows only into consumers documented to loop over short reads (bufio.Scanner/Reader, xml.Decoder, astits.Demuxer, io.ReadFull/ReadAtLeast/ReadAll) or into in-package functions that do the same, that no method Read([]byte) is called directly anywhere in the package (zero-rule with a positive control), and (R8.2) by enumerating all paths of every bufio.SplitFunc installed in the package with an interval domain over len(data), the terminator index and atEOF, that whenever a length-guarded look-ahead byte has not arrived and atEOF is not known true the function returns (0, nil, nil), and that every returned token advances. Given these, every byte the package interprets comes from a consumer whose output is independent of read sizes. Not decided: that bufio, encoding/xml and astits honour that documentation.",
 		Assumptions: commonAssumptions,
@@ -32,6 +37,21 @@ func init() {
 		Explanation: "Totality, panic classes raised by the package's own code: over the call-graph closure of the six readers, Open/OpenFile, the five writers, Write and the exported formatting helpers, every dereference / map store / interface or function-value call (E1: forward must-dataflow of non-nil facts over access paths, with error-correlated results, constructor-non-nil fields and call-site joins for unexported parameters), every index and slice expression (E2: difference constraints from dominating tests, range/counted loops, library length contracts and interprocedural length facts), every integer division, single-result type assertion and explicit panic (E3), and every loop (E4: progress classification) is decided on all paths; unproved sites are either audited residue (rules/residue.txt) or reported.",
 		Assumptions: commonAssumptions,
 		Rules: []Rule{{"nilderef", ruleNilDeref}, {"nil-element", ruleNilProducer}, {"support-currentPage", ruleSupportCurrentPage}, {"bounds", ruleBounds}, {"divzero", ruleDivZero}, {"typeassert", ruleTypeAssert}, {"explicit-panic", rulePanicCalls}, {"support-framerate", ruleSupportFramerate}, {"loops", ruleLoops}},
+	})
+	register(&PropSpec{ID: "C01",
+		Explanation: "Structural agreement clauses of the SubRip codec: (a) the HTML escape and unescape tables (constant arguments of the two strings.NewReplacer calls) are exact inverses, every escaped form starts with '&', '&' itself is escaped, no escaped form prefixes another — the necessary condition for '&', '<' and NBSP surviving; (b) in the run tokenizer the start-tag and end-tag switches cover the same tags and write the same state fields, every state field is copied into the attributes captured per text run, and the writer closes the tags it opens in reverse order and emits only tags the reader handles; (c) writer separator ∈ reader separators at millisecond scale. Not decided: any equality between decoded documents (line endings, index handling, trailing blank lines, state reset per cue).",
+		Assumptions: commonAssumptions,
+		Rules: []Rule{{"escape-tables", ruleEscapeTables}, {"srt-tags", ruleSRTTags}, {"timestamp-format", ruleDurationFormats("SRT")}},
+	})
+	register(&PropSpec{ID: "C02",
+		Explanation: "Structural agreement clauses of the WebVTT codec: every cue setting (separator ':') and region setting (separator '=') the writer emits is parsed by the reader's switch into the same model field (tables extracted from the constant+field concatenations of the writer and the switch arms of the reader); escape tables are inverse; all region definitions are emitted before the cue loop starts; timestamp separator/scale agree and the inline-timestamp pattern accepts the writer's shape. Not decided: tag-stack semantics, voice extraction, comment attachment, STYLE content, round trip.",
+		Assumptions: commonAssumptions,
+		Rules: []Rule{{"settings", ruleWebVTTSettings}, {"escape-tables", ruleEscapeTables}, {"timestamp-format", ruleDurationFormats("WebVTT")}},
+	})
+	register(&PropSpec{ID: "C03",
+		Explanation: "Structural agreement clauses of the TTML codec: each of the tts: attributes, header/subtitle/item attributes, metadata elements and element paths has the same XML local name (and attribute-ness) on the input and output structs (struct tags compared field by field); each style attribute is wired In.X → StyleAttributes.F → Out.X through the same F; every offset-time metric the grammar constant admits (alternatives of capture group 3, parsed with regexp/syntax) is handled by UnmarshalText; the language table is used forwards by the reader and backwards by the writer and covers the same languages as STL's; MarshalText/UnmarshalText separator and scale agree. Not decided: values of time expressions, <br/> handling, style inheritance links (shared-parent overwrite is a value-level map collision), character coverage.",
+		Assumptions: commonAssumptions,
+		Rules: []Rule{{"attributes", ruleTTMLAttributes}, {"code-maps", ruleSTLCodeMaps}, {"timestamp-format", ruleDurationFormats("TTML")}},
 	})
 	register(&PropSpec{ID: "C04",
 		Explanation: "Structural agreement clauses of the SSA/ASS codec: (a) every style column name is bound to the same ssaStyle field by the Format-line builder (updateFormat), the row writer (string) and the row reader (newSSAStyleFromString), event columns likewise (string / newSSAEventFromString / the Format list of WriteToSSA) and script-info names (bytes / parse); the model converters are mutually inverse (style ↔ StyleAttributes, script info ↔ Metadata); (b) the literal the row writer prints for a true boolean and for Marked is one the reader takes as true; (c) section headers written are sections read; (d) colour prefix and radix agree. Tables are extracted from the SSA switch arms and stores of /repo on every run. Not decided: Format-permutation behaviour, text splitting, idempotent rewrite.",
